@@ -132,6 +132,21 @@ inline void nd_tolerated_fwd(const char* cls, const char* msg) {
   if (nd::g_tolerated_printed++ < 3) { printf("TOLERATED seed=%" PRIu64 " class=%s msg=%s\n", nd::g_seed, cls, msg); fflush(stdout); }
 }
 namespace nd {
+// for drivers whose case is a sweep of many faulted executions: a tolerated (known) class is counted and the
+// sweep goes on; anything else is a normal violation
+inline bool is_tolerated(const char* cls) {
+  if (g_tolerate.count(cls)) return true;
+  for (auto& t : g_tolerate) if (!t.empty() && t.back() == '*' && !strncmp(cls, t.c_str(), t.size() - 1)) return true;
+  return false;
+}
+inline void violation_or_continue(const char* cls, const char* fmt, ...) {
+  static char b[1500];
+  va_list ap; va_start(ap, fmt); vsnprintf(b, sizeof b, fmt, ap); va_end(ap);
+  for (char* c = b; *c; c++) if (*c == '\n') *c = ' ';
+  if (is_tolerated(cls)) { ::nd_tolerated_fwd(cls, b); return; }
+  write_fail_file(cls, b);
+  _exit(10);
+}
 inline void on_signal(int sig, siginfo_t*, void*) {
   char b[64]; snprintf(b, sizeof b, "signal %d", sig);
   if (g_in_case) { write_fail_file("crash", b); _exit(10); }
